@@ -973,34 +973,87 @@ def dangling_steps(wf, live_outputs=None):
     return sorted(set(wf["steps"]) - live)
 
 
+def _plain_subworkflow(st):
+    run = st.get("run")
+    return isinstance(run, dict) and run.get("class") == "Workflow"
+
+
+def _dead_inputs(st, inner_live_outputs):
+    """inputs of a sub-workflow step that no live inner step / live inner output reads (and that the step itself
+    does not need for scatter / when / loop / valueFrom of another input)"""
+    run = st["run"]
+    dead_steps = set(dangling_steps(run, inner_live_outputs))
+    used = set()
+    for k, d in run["outputs"].items():
+        if inner_live_outputs is None or k in inner_live_outputs:
+            used.update(sources_of(d if isinstance(d, dict) else None))
+    for n, s2 in run["steps"].items():
+        if n not in dead_steps:
+            for v in s2["in"].values():
+                used.update(sources_of(v))
+    if "when" in st or "scatter" in st or (st.get("requirements") or {}).get("cwltool:Loop"):
+        return set()
+    if any(isinstance(v, dict) and "valueFrom" in v for v in st["in"].values()):
+        return set()
+    return {k for k in st["in"] if k in run["inputs"] and k not in used}
+
+
 def unconnected(wf, live_outputs=None, path=""):
     """everything that cannot influence the top-level outputs, at every nesting level:
-    [(path, 'step', name)] for steps without a path to a live output and [(path, 'output', key)] for outputs of a
-    nested workflow that nothing live in the enclosing workflow reads."""
+    (path, 'step', name) steps without a path to a live output; (path, 'output', key) outputs of a nested workflow
+    that nothing live in the enclosing workflow reads; (path, 'input', key) inputs of a nested workflow (of a plain
+    sub-workflow step) that nothing live inside reads - their sources do not keep a producer alive."""
     out = []
-    dead = set(dangling_steps(wf, live_outputs))
-    out.extend((path, "step", n) for n in sorted(dead))
     if live_outputs is not None:
         out.extend((path, "output", k) for k in wf["outputs"] if k not in live_outputs)
-    # which outputs of each live sub-workflow step are read by something live
-    used = set()
-    for k, d in wf["outputs"].items():
-        if live_outputs is None or k in live_outputs:
-            used.update(sources_of(d if isinstance(d, dict) else None))
-    for n, st in wf["steps"].items():
-        if n not in dead:
-            for v in st["in"].values():
-                used.update(sources_of(v))
-    for n, st in wf["steps"].items():
-        run = st.get("run")
-        if n in dead or not isinstance(run, dict) or run.get("class") != "Workflow":
+    # fixpoint: dead inputs of sub-workflow steps make their producers dead, which may kill more
+    dead_in = {}  # step name -> set of dead input names
+    for _ in range(6):
+        live = set()
+        work = []
+        for k, d in wf["outputs"].items():
+            if live_outputs is None or k in live_outputs:
+                work.extend(sources_of(d if isinstance(d, dict) else None))
+        used = set(work)
+        while work:
+            s = work.pop()
+            if "/" not in s:
+                continue
+            name = s.split("/")[0]
+            if name in live or name not in wf["steps"]:
+                continue
+            live.add(name)
+            for k, v in wf["steps"][name]["in"].items():
+                if k in dead_in.get(name, ()):
+                    continue
+                srcs = sources_of(v)
+                used.update(srcs)
+                work.extend(srcs)
+        new_dead_in = {}
+        for n in live:
+            st = wf["steps"][n]
+            if _plain_subworkflow(st):
+                inner_live = {o for o in st["out"] if f"{n}/{o}" in used}
+                lp = (st.get("requirements") or {}).get("cwltool:Loop")
+                if lp:
+                    inner_live = set(st["out"])
+                d = _dead_inputs(st, inner_live)
+                if d:
+                    new_dead_in[n] = d
+        if new_dead_in == dead_in:
+            break
+        dead_in = new_dead_in
+    dead = set(wf["steps"]) - live
+    out.extend((path, "step", n) for n in sorted(dead))
+    for n in sorted(live):
+        st = wf["steps"][n]
+        if not _plain_subworkflow(st):
             continue
-        lp = (st.get("requirements") or {}).get("cwltool:Loop")
         inner_live = {o for o in st["out"] if f"{n}/{o}" in used}
-        if lp:  # loop sources read the step's own outputs
-            for v in lp.get("loop", {}).values():
-                inner_live.update(sources_of(v if isinstance(v, dict) else {"source": v}))
-        out.extend(unconnected(run, inner_live, f"{path}/{n}"))
+        if (st.get("requirements") or {}).get("cwltool:Loop"):
+            inner_live = set(st["out"])
+        out.extend((f"{path}/{n}", "input", k) for k in sorted(dead_in.get(n, ())))
+        out.extend(unconnected(st["run"], inner_live, f"{path}/{n}"))
     return out
 
 
@@ -1023,7 +1076,7 @@ def doc_features(wf):
             F.add("repeated_source")
         if dangling_steps(w):
             F.add("dangling_step")
-        if not path and unconnected(w):
+        if not path and any(x[1] != "input" for x in unconnected(w)):
             F.add("unconnected_part")
         for d in w["outputs"].values():
             if isinstance(d, dict):
